@@ -256,6 +256,71 @@ Proof.
   intros r Hr. specialize (B r Hr). destruct (ns_meta img) as [g|]; [now exists g|contradiction].
 Qed.
 
+(* ---------- any number of crashes and recoveries ---------- *)
+Lemma restart_inv c img : Inv c -> crash c img -> Inv (restart c img).
+Proof.
+  intros Hi Hc. destruct (crash_recover c img Hi Hc) as [A B].
+  assert (Hposs : forall g, In g (possible (restart c img)) -> ns_meta img = Some g).
+  { intros g Hg. apply possible_In_pend in Hg. cbn [restart base pend pend_metas flat_map] in Hg. destruct Hg as [Hg|[]]. exact Hg. }
+  split.
+  - intros g Hg f Hf. specialize (Hposs g Hg). destruct (A g Hposs) as (Ho & _ & _).
+    change (files_of (restart c img) g) with (files_of c g) in Hf. destruct (Ho f Hf) as [X Y].
+    cbn [restart base term pend]. repeat split; auto.
+  - intros g Hg. specialize (Hposs g Hg). destruct (A g Hposs) as (_ & Hlt & _). exact Hlt.
+  - intros r Hr. cbn [restart returned] in Hr. split.
+    + intros g Hg. specialize (Hposs g Hg). destruct (A g Hposs) as (_ & _ & Hle). apply Hle, Hr.
+    + cbn [restart base]. apply (B r Hr).
+  - intros g0 _ g Hg. cbn [restart pend pend_metas flat_map] in Hg. contradiction.
+Qed.
+
+(* the states a machine can be in: it runs disciplined storage operations, and at any moment it may crash -- with any
+   outcome the persistence model allows -- and come back *)
+Inductive reach : cst -> Prop :=
+| reach_init : reach init
+| reach_step c e : reach c -> check c e = true -> reach (cstep c e)
+| reach_crash c img : reach c -> crash c img -> reach (restart c img).
+
+Lemma reach_inv c : reach c -> Inv c.
+Proof.
+  induction 1 as [|c e _ IH Hc|c img _ IH Hc]; [apply inv_init|apply inv_step; assumption|apply restart_inv; assumption].
+Qed.
+
+(* C01 across restarts: after ANY number of crashes and recoveries interleaved with disciplined operation, the next
+   crash still leaves a started generation, complete, not older than the last commit that returned (in any of the lives) *)
+Theorem crash_safe_across_restarts c img : reach c -> crash c img ->
+  (forall g, ns_meta img = Some g ->
+      openable c img g /\ g < ngen c /\ (forall r, returned c = Some r -> r <= g)) /\
+  (forall r, returned c = Some r -> ns_meta img <> None).
+Proof. intros Hr. apply crash_recover, reach_inv, Hr. Qed.
+
+(* a process started on a crash image whose meta.json references only present, complete files starts in the invariant *)
+Lemma from_image_inv files complete meta_files o :
+  (forall f, In f meta_files -> In f files /\ In f complete) -> Inv (from_image files complete meta_files o).
+Proof.
+  intros H. split; cbn [from_image base pend term gens returned].
+  - intros g Hg f Hf. unfold possible in Hg. cbn [from_image base pend ns_meta pend_metas flat_map app] in Hg.
+    destruct Hg as [<-|[]]. unfold files_of in Hf. cbn [from_image gens nth N.to_nat fst] in Hf.
+    destruct (H f Hf) as [A B]. repeat split; auto.
+  - intros g Hg. unfold possible in Hg. cbn [from_image base pend ns_meta pend_metas flat_map app] in Hg.
+    destruct Hg as [<-|[]]. unfold ngen. cbn. lia.
+  - intros r Hr. discriminate.
+  - intros g0 _ g Hg. cbn in Hg. contradiction.
+Qed.
+
+(* ... so everything it then does under the discipline is crash safe again (the recovery runs of the harness are fed
+   through `monitor_from (from_image ..)` inside Coq) *)
+Theorem recovered_process_crash_safe files complete meta_files o t k img :
+  (forall f, In f meta_files -> In f files /\ In f complete) ->
+  monitor_from (from_image files complete meta_files o) t = true ->
+  let c := fold_left cstep (firstn k t) (from_image files complete meta_files o) in
+  crash c img ->
+  (forall g, ns_meta img = Some g -> openable c img g /\ g < ngen c /\ (forall r, returned c = Some r -> r <= g)) /\
+  (forall r, returned c = Some r -> ns_meta img <> None).
+Proof.
+  intros H Hm c Hc. apply crash_recover; [|exact Hc]. unfold c. apply monitor_from_inv; [apply from_image_inv, H|].
+  rewrite <- (firstn_skipn k t) in Hm. eapply monitor_from_prefix. exact Hm.
+Qed.
+
 (* non-emptiness of the crash relation: the no-loss and the total-loss outcomes always exist *)
 Lemma crash_all c : crash c (apply_all (base c) (pend c)).
 Proof. exists (pend c). split; [apply subseq_refl|reflexivity]. Qed.
